@@ -409,8 +409,8 @@ impl LineSplitter {
             }
         }
 
-        // Add the last field
-        if start < line.len() {
+        // Add the last field (empty when the line ends with the delimiter, as with split())
+        if start <= line.len() {
             if let Ok(field) = std::str::from_utf8(&line.as_bytes()[start..]) {
                 self.buffer.push(field.to_string());
             }
